@@ -18,6 +18,7 @@
 import PgVerif.Proofs.ExtraToast
 import PgVerif.Proofs.HeapEnc
 import PgVerif.Props.C08
+import PgVerif.Proofs.ClusterStr
 set_option linter.unusedSimpArgs false
 namespace PgVerif.Props.C08Extra
 open PgVerif PgVerif.Model PgVerif.Model.Extra PgVerif.Model.Toast PgVerif.Proofs.Extra
@@ -40,6 +41,19 @@ theorem C08_analyzeTOAST (rr : RowReader) (fs : Bytes → Option Bytes) (dbName 
   rw [Proofs.collectM_map_ok (analyzeEntry fs (findDbOID dbs dbName)) (fun e => analyzeEntryResult fs (findDbOID dbs dbName) e chunksOf) es
     (fun e _ => analyzeEntry_eq fs _ e chunksOf hc)]
   rfl
+
+/-- the hypotheses of `C08_analyzeTOAST` are satisfiable: a row reader that finds one pg_database row (oid 5, name "d"),
+a tree in which every path holds an empty file -/
+example : ∃ (rr : RowReader) (fs : Bytes → Option Bytes) (dbs : List DatabaseInfo),
+    fs pathGlobal1262 = some [] ∧ parsePGDatabase rr [] = .ok dbs ∧ findDbOID dbs [100] ≠ 0 ∧
+    fs (basePath (findDbOID dbs [100]) 1259) = some [] ∧ readTuples [] true = .ok [] := by
+  refine ⟨fun _ _ _ => pure [[(strBytes "oid", .int 5), (strBytes "datname", .str [100])]], fun _ => some [], [⟨5, [100]⟩],
+    rfl, ?_, by decide, rfl, rfl⟩
+  have hne : (strBytes "datname" == strBytes "oid") = false := by
+    rw [beq_eq_false_iff_ne]
+    intro h
+    exact absurd (Proofs.Cluster.strBytes_inj _ _ h) (by decide)
+  simp [parsePGDatabase, getOID, getString, List.lookup, hne]
 
 /-- the error cases: global/1262 unreadable; the name is not in pg_database; pg_class unreadable -/
 theorem C08_analyzeTOAST_errors (rr : RowReader) (fs : Bytes → Option Bytes) (dbName : Bytes) :
